@@ -12,7 +12,7 @@ use std::collections::{BTreeMap, BTreeSet};
 pub static SPEC: PropSpec = PropSpec {
     id: "C07",
     level: "exploration",
-    rule: "programs: a library of 20 generic functions / methods (functions whose type parameter occurs only inside a type application with concrete co-arguments, a generic struct whose fields apply other generic types to its own parameter built and taken apart at generic-application arguments, identity, pairs, swaps, apply, callbacks whose result type occurs only in the callback's return type, containers Vec / Ref / array / Opt[T] / Box[T], bounded generics through trait bounds, generics calling generics at composed types, bounded recursion) instantiated in `main` at type tuples drawn from 14 concrete types (all integer widths used, bool, string, unit, tuples, arrays, Vec, Ref, structs, enums, generic instances, function types), plus randomly generated generic-heavy programs; each program is (1) executed and compared with refsem (generics by substitution), (2) monitored after mono: no duplicate function names, no type-parameter residue in Mono/Lift/ANF or in the Go text, and at least one Mono function per distinct (generic function, type tuple) used. distinct / non-trivial = distinct (generic item, type-argument tuple) pairs instantiated",
+    rule: "programs: a library of 25 generic functions / methods (values built inside the generic body at a type mentioning the parameter - array literal, Ref cell, Vec pushes, closure literal -, functions whose type parameter occurs only inside a type application with concrete co-arguments, a generic struct whose fields apply other generic types to its own parameter built and taken apart at generic-application arguments, identity, pairs, swaps, apply, callbacks whose result type occurs only in the callback's return type, containers Vec / Ref / array / Opt[T] / Box[T], bounded generics through trait bounds, generics calling generics at composed types, bounded recursion) instantiated in `main` at type tuples drawn from 14 concrete types (all integer widths used, bool, string, unit, tuples, arrays, Vec, Ref, structs, enums, generic instances, function types), plus randomly generated generic-heavy programs; each program is (1) executed and compared with refsem (generics by substitution), (2) monitored after mono: no duplicate function names, no type-parameter residue in Mono/Lift/ANF or in the Go text, and at least one Mono function per distinct (generic function, type tuple) used. distinct / non-trivial = distinct (generic item, type-argument tuple) pairs instantiated",
     eval_counter: "instantiations",
     assumptions: &["relative to refsem (generics by substitution) and gomini; instance counting is a lower bound (statically reachable instances may exceed dynamically used ones)"],
     crash_is_violation: false,
@@ -189,6 +189,37 @@ fn library() -> Lib {
         opt(Ty::Tuple(vec![t.clone(), t.clone()])),
         blk(vec![], Expr::Call { name: "wrapg".into(), targs: vec![("T".into(), Ty::Tuple(vec![t.clone(), t.clone()]))], args: vec![Expr::Call { name: "dupg".into(), targs: vec![("T".into(), t.clone())], args: vec![var("x")] }] }),
     )));
+    // values BUILT inside the generic body at a type mentioning the parameter: array literal, array literal read back,
+    // Ref cell, Vec built by pushes, closure literal over the parameter type
+    items.push(Item::Fn(fnd("arr2g", &[("T", &[])], vec![("a", t.clone()), ("b", t.clone())], Ty::Array(Box::new(t.clone()), 2), blk(vec![], Expr::Array(vec![var("a"), var("b")])))));
+    items.push(Item::Fn(fnd(
+        "pickg",
+        &[("T", &[])],
+        vec![("a", t.clone()), ("b", t.clone()), ("k", I32)],
+        t.clone(),
+        blk(vec![Stmt::Let(Pat::Var("both".into()), None, Expr::Array(vec![var("a"), var("b")]))], bi("array_get", vec![var("both"), var("k")])),
+    )));
+    items.push(Item::Fn(fnd(
+        "cellg",
+        &[("T", &[])],
+        vec![("a", t.clone()), ("b", t.clone())],
+        t.clone(),
+        blk(vec![Stmt::Let(Pat::Var("cell".into()), None, bi("ref", vec![var("a")])), Stmt::Let(Pat::Wild, None, bi("ref_set", vec![var("cell"), var("b")]))], bi("ref_get", vec![var("cell")])),
+    )));
+    items.push(Item::Fn(fnd(
+        "vec2g",
+        &[("T", &[])],
+        vec![("a", t.clone()), ("b", t.clone())],
+        Ty::Vec(Box::new(t.clone())),
+        blk(vec![Stmt::Let(Pat::Var("v0".into()), Some(Ty::Vec(Box::new(t.clone()))), bi("vec_new", vec![])), Stmt::Let(Pat::Var("v1".into()), None, bi("vec_push", vec![var("v0"), var("a")]))], bi("vec_push", vec![var("v1"), var("b")])),
+    )));
+    items.push(Item::Fn(fnd(
+        "constg",
+        &[("T", &[])],
+        vec![("a", t.clone()), ("b", t.clone())],
+        t.clone(),
+        blk(vec![Stmt::Let(Pat::Var("keep".into()), None, Expr::Closure { params: vec![("ignored".into(), Some(t.clone()))], body: Box::new(var("a")) })], Expr::CallValue(Box::new(var("keep")), vec![var("b")])),
+    )));
     // bounded recursion at the same instance
     items.push(Item::Fn(fnd(
         "countg",
@@ -356,7 +387,7 @@ fn gen_calls(g: &mut Gen, n: usize) -> Vec<Call> {
         let t = g.rng.pick_ref(&pool).clone();
         let u = g.rng.pick_ref(&pool).clone();
         let val = |g: &mut Gen, ty: &Ty| g.gen_expr(ty, 1, &[]);
-        let which = g.rng.below(25);
+        let which = g.rng.below(30);
         let c = match which {
             0 => Call { name: "idg", targs: vec![("T".into(), t.clone())], args: vec![val(g, &t)], ret: t.clone() },
             1 => Call { name: "pairg", targs: vec![("T".into(), t.clone()), ("U".into(), u.clone())], args: vec![val(g, &t), val(g, &u)], ret: Ty::Tuple(vec![t.clone(), u.clone()]) },
@@ -400,6 +431,11 @@ fn gen_calls(g: &mut Gen, n: usize) -> Vec<Call> {
                 let rt = Ty::Enum("Res".into(), vec![I32, t.clone()]);
                 Call { name: "iserrg", targs: vec![("T".into(), t.clone())], args: vec![val(g, &rt)], ret: I32 }
             }
+            25 => Call { name: "arr2g", targs: vec![("T".into(), t.clone())], args: vec![val(g, &t), val(g, &t)], ret: Ty::Array(Box::new(t.clone()), 2) },
+            26 => Call { name: "pickg", targs: vec![("T".into(), t.clone())], args: vec![val(g, &t), val(g, &t), i(g.rng.below(2) as i128)], ret: t.clone() },
+            27 => Call { name: "cellg", targs: vec![("T".into(), t.clone())], args: vec![val(g, &t), val(g, &t)], ret: t.clone() },
+            28 => Call { name: "vec2g", targs: vec![("T".into(), t.clone())], args: vec![val(g, &t), val(g, &t)], ret: Ty::Vec(Box::new(t.clone())) },
+            29 => Call { name: "constg", targs: vec![("T".into(), t.clone())], args: vec![val(g, &t), val(g, &t)], ret: t.clone() },
             19 | 20 => Call { name: "unwrg", targs: vec![("T".into(), t.clone())], args: vec![Expr::Call { name: "mkwrg".into(), targs: vec![("T".into(), t.clone())], args: vec![val(g, &t)] }], ret: t.clone() },
             _ => {
                 let a = g.rng.pick_ref(&showable).clone();
